@@ -424,6 +424,9 @@ func (e *env) opTrash(line string, cut int64) {
 	res := gen.Guard(func() string { return errName(e.m.Trash(cut)) })
 	out.Op(line, res)
 	out.Stat("trash", 1)
+	// Go deletes while the reverse iterator is open: goleveldb iterates a snapshot, GoMemDB the live
+	// skiplist.  The model deletes after the scan; both backends are compared with it (dump + reads).
+	out.Stat("trash_on_"+e.backend+"db", 1)
 	if res != "ok" {
 		out.Pred("C09|Trash|error-or-panic", line+" -> "+res)
 		return
